@@ -55,9 +55,9 @@ Definition spec_b (s : store) : bool := truthful_b s && functional_b s.
 
 (** ---- scope and finding classes ------------------------------------------------ *)
 
-(** The only remaining finding class.  (The classes CCopyStale, CCopyReuse,
-    CMoveMaxUid and CRenameInbox of the first round are gone: those defects are
-    repaired and the operations are inside the positive theorems.) *)
+(** Retired: no operation is classified any more ([step_class] is constantly
+    [None]).  CSameSecond was the class "UIDVALIDITY = wall-clock second"; the
+    classes CCopyStale, CCopyReuse, CMoveMaxUid, CRenameInbox went in fix wave 1. *)
 Inductive fclass :=
 | CSameSecond.    (* a (name, UIDVALIDITY) pair used before is given out again *)
 
@@ -66,38 +66,29 @@ Definition used_b (s : store) (n : str) (v : Z) : bool :=
 
 Definition is_inbox (n : str) : bool := str_eqb (to_upper n) INBOX.
 
-(** hierarchy-free operations: the scope of the positive theorems (mailbox
-    hierarchies — implied parents, renamed children — belong to C11) *)
+(** scope of the positive theorems: hierarchy-free operations (mailbox
+    hierarchies — implied parents, renamed children — belong to C11), and a plain
+    RENAME a b only onto a name that this mailbox row did not carry before
+    (RENAME keeps the row's UIDVALIDITY; "a -> b -> a" brings back a (name,
+    UIDVALIDITY) pair with the same, continued UIDs — harmless for clients, but
+    outside the literal "never used with that name before", and not proved) *)
 Definition flat_step (s : store) (o : op) : bool :=
   match o with
   | OCreate n _ => negb (contains_byte (trim_suffix n [SLASH]) SLASH)
   | ORename a b _ => negb (contains_byte b SLASH) && negb (has_prefix b (a ++ [SLASH]))
                      && match children s a with [] => true | _ => false end
+                     && (is_inbox a || match find_name s a with
+                                       | Some m => negb (used_b s b (mb_validity m))
+                                       | None => true
+                                       end)
   | _ => true
   end.
 
 Definition is_ok (r : result) : bool := match r with ROk => true | _ => false end.
 
-Definition step_class (s : store) (o : op) : option fclass :=
-  let '(s', r) := step s o in
-  match o with
-  | ODeliver f t =>
-      match find_name s f with
-      | Some _ => None
-      | None => if used_b s f t then Some CSameSecond else None
-      end
-  | OCreate n t =>
-      if is_ok r && used_b s (trim_suffix n [SLASH]) t then Some CSameSecond else None
-  | ORename a b t =>
-      if negb (is_ok r) then None
-      else if is_inbox a then (if used_b s b t then Some CSameSecond else None)
-      else match find_name s a with
-           | Some m => if used_b s b (mb_validity m) then Some CSameSecond else None
-           | None => None
-           end
-  | OAppend _ _ | OUidCopy _ _ _ | OCopy _ _ _ | OUidStore _ _ _ _
-  | OExpunge _ | OClose _ | ODelete _ => None
-  end.
+(** No finding class is left: every defect that had one is repaired
+    (fixes/c03-*.patch).  The type and the function are kept for the callers. *)
+Definition step_class (s : store) (o : op) : option fclass := None.
 
 (** first step of a history that falls into a class: (index, class) *)
 Fixpoint classify_from (i : nat) (s : store) (h : list op) : option (nat * fclass) :=
